@@ -161,6 +161,11 @@ def assume_type(v, st, world=None):
     st.assume(kindof(v.t) == KIND_CODE.get(k, 0))
   if k == 'obj':
     st.assume(subcls(typeof(v.t), cls_const(v.ty.name)))
+  if k in ('set', 'list', 'vtuple') and v.ty.args and v.ty.args[0].kind == 'obj':
+    # declared element type: every element is an instance of it
+    e = z3.Const(fresh_name('te'), U)
+    member = st.heap.mem(v.t, e) if k == 'set' else st.heap.lmem(v.t, e)
+    st.assume(z3.ForAll([e], z3.Implies(member, z3.And(subcls(typeof(e), cls_const(v.ty.args[0].name)), e != NONE))))
 
 
 # ------------------------------------------------------------- truthiness / equality
